@@ -1,6 +1,8 @@
 package serialize
 
 import (
+	"fmt"
+
 	"github.com/kercylan98/vivid"
 	"github.com/kercylan98/vivid/internal/messages"
 )
@@ -17,6 +19,9 @@ func EncodeEnvelopWithRemoting(codec vivid.Codec, envelop vivid.Envelop) (data [
 	var writer = messages.NewWriterFromPool()
 	defer messages.ReleaseWriterToPool(writer)
 	if messageDesc.IsOutside() {
+		if codec == nil {
+			return nil, fmt.Errorf("message type %T is not registered and no codec is configured", envelop.Message())
+		}
 		data, err = codec.Encode(envelop.Message())
 		if err != nil {
 			return nil, err
@@ -80,6 +85,11 @@ func DecodeEnvelopWithRemoting(codec vivid.Codec, data []byte) (
 		}
 	} else {
 		// 外部消息反序列化
+		if codec == nil {
+			// 未知的消息名且未配置编解码器：作为解码失败返回，不可对 nil 接口调用 Decode（panic 会终止连接 Actor，后续帧全部丢失）
+			err = fmt.Errorf("message name %q is not registered and no codec is configured", messageName)
+			return
+		}
 		messageInstance, err = codec.Decode(messageData)
 		if err != nil {
 			return
